@@ -216,16 +216,16 @@ func VerifC08_ScopeAnnotations() {
 func VerifC08_Strings() {
 	g := eval.VGenMkEnv()
 	r := vrt.Rune("rune")
-	if !vrt.Thorough() {
-		vrt.Assume(r < 0x80)
-		vrt.Bound("rune-below-0x80-in-quick", 1)
-	} else if k := vrt.Choice("rune-class", 9); k == 0 {
-		// the printable/escape classification walks the Unicode range tables: one path
-		// per table range, so the symbolic part stops at U+024F (two-byte UTF-8 included)
-		// and larger code points are sampled at the interesting boundaries (the run with
-		// an unconstrained rune did not finish in 45 minutes)
-		vrt.Assume(vrt.And(r >= 0, r < 0x250))
-		vrt.Bound("symbolic-rune-below-0x250-in-thorough-plus-8-boundary-code-points", 0x250)
+	// the symbolic part of the rune is bounded (the printable/escape classification walks
+	// the Unicode range tables: one path per table range; an unconstrained rune did not
+	// finish in 45 minutes); larger code points are sampled at the interesting boundaries
+	limit := rune(0x80)
+	if vrt.Thorough() {
+		limit = 0x250
+	}
+	vrt.Bound("symbolic-rune-below-limit-plus-8-boundary-code-points", int(limit))
+	if k := vrt.Choice("rune-class", 9); k == 0 {
+		vrt.Assume(vrt.And(r >= 0, r < limit))
 	} else {
 		r = []rune{0x2028, 0xFEFF, 0xFFFD, 0x10000, 0x10FFFF, 0xD7FF, 0xE000, 0x1F600}[k-1]
 	}
